@@ -1,0 +1,88 @@
+//go:build verif
+
+// Contracts for request-body reading and its caps (property C18) and the response budgets
+// (property C19). Comment-only.
+
+package vgirpc
+
+// readHTTPBody: the effective raw cap is max_request_bytes when it applies (configured, route
+// not exempt, and not looser than the transport cap), else the transport cap; at most cap+1
+// raw bytes are read; a longer body is refused; an identity body is returned as read; the
+// decoded cap handed to the decoder is the documented function of the configuration.
+// All arithmetic on caps is exact (no int64 wraparound) - checked against mathematical ints.
+//
+// Saturating cap arithmetic: exact below the int64 ceiling, pinned to it otherwise.
+//
+//@ pure func maxI64() int = 9223372036854775807
+//@ func capPlusOne
+//@   property C18
+//@   modifies nothing
+//@   ensures result == min(n + 1, maxI64())
+//@ func capTimes16
+//@   property C18
+//@   modifies nothing
+//@   ensures n >= 0 ==> result == min(n * 16, maxI64())
+//
+//@ func (*HttpServer).isMaxBytesExempt
+//@   property C18
+//@   modifies nothing
+//
+//@ func (*HttpServer).readHTTPBody
+//@   property C18
+//@   requires h != nil && r != nil
+//@   at call io.LimitReader assert [limit] limit > 0 && limit == (requestCapApplied ? h.maxRequestBytes : h.maxBodySize)
+//@   at call io.LimitReader assert [applied] requestCapApplied ==> h.maxRequestBytes > 0 && (h.maxBodySize <= 0 || h.maxRequestBytes <= h.maxBodySize)
+//@   at call io.LimitReader assert [readatmost] arg1 == min(limit + 1, maxI64())
+//@   at call decompressBounded assert [withincap] limit <= 0 || len(body) <= limit
+//@   at call decompressBounded assert [decodedcap] arg2 ==
+//@       (requestCapApplied && (h.maxDecompressedBodySize <= 0 || limit < h.maxDecompressedBodySize) ? limit :
+//@        (h.maxDecompressedBodySize <= 0 && limit > 0 ? min(limit * 16, maxI64()) : h.maxDecompressedBodySize))
+//@   at call decompressBounded assert [rawbody] arg1 == body && (arg0 == "zstd" || arg0 == "gzip")
+//@   ensures [local_identity] result1 == nil && (encoding == "" || encoding == "identity") ==> result0 == body && (limit <= 0 || len(body) <= limit)
+//@   ensures [local_toolarge] err == nil && limit > 0 && len(body) > limit ==> result1 != nil &&
+//@       (requestCapApplied ==> typeof(result1) == *requestBodyTooLargeError) && (!requestCapApplied ==> typeof(result1) == *RpcError)
+
+// decompressBounded: at most maxOutput+1 decoded bytes are read and a longer output is refused;
+// an unknown coding is an *unsupportedEncodingError.
+//
+//@ func decompressBounded
+//@   property C18
+//@   at call io.LimitReader assert [readatmost] arg1 == min(maxOutput + 1, maxI64())
+//@   ensures [bounded] result1 == nil && maxOutput > 0 ==> len(result0) <= maxOutput
+//@   ensures [unknown] encoding != "zstd" && encoding != "gzip" ==> typeof(result1) == *unsupportedEncodingError
+
+// DecodeContentEncoding: codings are undone last-to-first; the index never leaves the list.
+//
+//@ func DecodeContentEncoding
+//@   property C18
+//@   nopanic
+//@   loop 0 invariant -1 <= i && i < len(codings)
+//@   loop 0 decreases i + 1
+
+// writeBodyReadError: 413 / 415 / 400 in that order of precedence.
+//
+//@ func (*HttpServer).writeBodyReadError
+//@   property C18
+//@   at call (*HttpServer).writeHttpError#1 assert [s413] arg2 == 413
+//@   at call (*HttpServer).writeHttpError#2 assert [s415] arg2 == 415
+//@   at call (*HttpServer).writeHttpError#3 assert [s400] arg2 == 400
+
+// ---------------- C19: response budgets ----------------
+//
+//@ func enforceResponseBudgets
+//@   property C19
+//@   ensures [decision] (result == nil) <==> ((wireCap <= 0 || wireBytes <= wireCap) && (externalCap <= 0 || externalBytes <= externalCap))
+//@   ensures [wirefirst] wireCap > 0 && wireBytes > wireCap ==> typeof(result) != *externalCapError
+//@   ensures [extkind] (wireCap <= 0 || wireBytes <= wireCap) && result != nil ==> typeof(result) == *externalCapError
+//
+//@ func newExternalCapError
+//@   property C19
+//@   ensures result != nil
+//
+//@ func (*HttpServer).checkExternalBudget
+//@   property C19
+//@   requires h != nil && out != nil && h.server != nil
+//@   at call newExternalCapError assert [overcap] projected > h.maxExternalizedResponseBytes && arg1 == projected && arg2 == h.maxExternalizedResponseBytes
+//@   ensures [local_refuse] h.server.externalConfig != nil && h.maxExternalizedResponseBytes > 0 && out.dataBatchIdx >= 0 && predicted != 0 &&
+//@       wrap(alreadyUploaded + predicted, "int64") > h.maxExternalizedResponseBytes ==> result != nil
+//@   ensures [disabled] old(h.server.externalConfig == nil || h.maxExternalizedResponseBytes <= 0 || out.dataBatchIdx < 0) ==> result == nil
